@@ -96,7 +96,7 @@ def _run_once(mode, code, time_steps, error_model, decoder, error_probability, m
                 'error': pt.pack(error), 'recovery': pt.pack(decoding.recovery),
                 # step variables
                 'step_errors': [pt.pack(v) for v in step_errors],
-                'step_measurement_errors': [pt.pack(v) for v in step_measurement_errors],
+                'step_measurement_errors': [pt.pack(np.atleast_1d(v)) for v in step_measurement_errors],
             }
             logger.warning('RECOVERY DOES NOT RETURN TO CODESPACE: {}'.format(json.dumps(log_data, sort_keys=True)))
         resolved_logical_commutations = pt.bsp(recovered, code.logicals.T)
